@@ -4,6 +4,7 @@
    not depend on which select arms exist), every population of senders and every schedule. *)
 From FMP Require Import Base.Bytes Base.Lts Model.Events Model.Skeleton Model.Props Model.Writer
      Proofs.WriterProofs Proofs.SkeletonProofs.
+From FMP Require Import Model.Paths Proofs.PathProofs.
 From FMP Require Import Model.CodecCfg Proofs.CodecCfgProofs.
 Open Scope Z_scope.
 
@@ -57,6 +58,10 @@ Proof. vm_compute. reflexivity. Qed.
 Theorem C13_senders_use_the_modelled_hand_off : cdf_blocking_senders codecfacts_now = true /\ cdf_cancel_async codecfacts_now = true.
 Proof. exact codec_blocking_senders. Qed.
 
+(* on every path through the function body as it is in the source now (regenerated into Generated.body_census, enumerated by Model/Paths.v) of framedMsgpackEncoder.writerLoop: the notifier is immediately followed by the Write, at most one of each per queue item, none on the way out *)
+Theorem C13_source_notifier_immediately_before_write : writer_paths_notify_then_write = true.
+Proof. exact paths_writer_notify_then_write. Qed.
+
 Print Assumptions C13_notifier_exact.
 Print Assumptions C13_seqnos_distinct.
 Print Assumptions C13_cancel_never_precedes_call.
@@ -65,3 +70,4 @@ Print Assumptions C13_all.
 Print Assumptions C13_abandoned_never_written.
 Print Assumptions C13_generated_ok.
 Print Assumptions C13_senders_use_the_modelled_hand_off.
+Print Assumptions C13_source_notifier_immediately_before_write.
